@@ -672,6 +672,38 @@ def step (st : St) (toks : List String) : St × String :=
       ({ st with objs := st.objs.insert name (.world { w with listeners := Listener.step w.listeners f, udpSinceBase := w.udpSinceBase || touchesUdp }) },
        if na then "n/a" else "done")
     | _, _ => (st, "bad-op")
+  | "e2e.linkreset" :: name :: _ =>
+    -- the link fails right behind an answer: what the client had received reaches the application before its end (C15, C01)
+    match st.objs.get? name with
+    | some (.world w) => (st, if !w.link then "n/a" else if w.listeners.serves && w.serverUp then "answer=complete" else "handshake-failed")
+    | _ => (st, "bad-op")
+  | "e2e.udphol" :: name :: _ =>
+    -- a binding whose connection stalls in its handshake waits by itself: an established binding is served meanwhile
+    match st.objs.get? name with
+    | some (.world w) =>
+      ({ st with objs := st.objs.insert name (.world { w with listeners := Listener.step w.listeners .bindingStall, udpSinceBase := true }) },
+       if !w.udp || w.protocol == "shadowsocks" || !w.link then "n/a" else if w.listeners.serves && w.serverUp then "served" else "lost")
+    | _ => (st, "bad-op")
+  | "e2e.udplru" :: name :: rest =>
+    -- answers keep a binding in use: a flow that only receives outlives any number of short flows
+    match st.objs.get? name, (kv rest "n").bind String.toNat? with
+    | some (.world w), some n =>
+      ({ st with objs := st.objs.insert name (.world { w with udpSinceBase := true }) },
+       if !w.udp then "no-udp" else if w.listeners.serves && w.serverUp then s!"stream=alive answered={n}" else "stream=never-started")
+    | _, _ => (st, "bad-op")
+  | "spec.vm.lenopen" :: rest =>
+    -- one size field of a VMess body with authenticated length, opened under KDF(key, "auth_len") and (count ‖ iv[2..12])
+    match kv rest "cipher", (kv rest "key").bind unhexOrDash, (kv rest "iv").bind unhexOrDash, (kv rest "count").bind String.toNat?,
+        (kv rest "ct").bind unhexOrDash with
+    | some ci, some key, some iv, some i, some ct =>
+      let chacha := ci == "chacha20-poly1305"
+      let alg : Alg := if chacha then .chacha20 else .aes128gcm
+      let ck2 (k : Bytes) : Bytes := if chacha then (C.md5 k ++ C.md5 (C.md5 k)) else k
+      let lenKey := ck2 ((Spec.vmessKdf C key [Spec.ascii "auth_len"]).take 16)
+      match C.openB alg lenKey ((be16 i ++ iv.drop 2).take 12) [] ct with
+      | some l => (st, s!"ok len={rdBE l}")
+      | none => (st, "reject")
+    | _, _, _, _, _ => (st, "bad-op")
   | "e2e.udpflood" :: name :: _ =>
     -- sessions that flood in both directions lose datagrams of their own; the relay goes on for everybody (C08)
     match st.objs.get? name with
